@@ -343,6 +343,18 @@ def getByName (r : Rec) (gid : Nat) : E Rec :=
 def withinRegions (r : Rec) : Rec :=
   { r with log := r.log ++ [[sortNat (r.regions.flatMap fun a => r.children a.id)]] }
 
+/-- a gene's annotations are rewritten while it is in the record (`cds.gene_functions.add(...)`,
+    `cds.strip_antismash_annotations()`, `Record.strip_antismash_annotations()` gene by gene): the gene object in
+    `_cds_features` / `_cds_by_name` / the cached tuple now reports the core products `cs`.
+    Model limit, named: this is followed only for a gene that has not been listed by any collection yet
+    (`annotation-after-pairing` otherwise) — definition sets are fixed when gene and protocluster meet, and a
+    gene re-annotated after that meeting would make them differ from the gene's current annotations. -/
+def setCores (r : Rec) (gid : Nat) (cs : List String) : E Rec :=
+  if r.members.any (fun x => x.2 == gid) then throw "annotation-after-pairing"
+  else
+    let f := fun (g : Gene) => if g.id == gid then { g with cores := cs } else g
+    pure { r with genes := r.genes.map f, byName := r.byName.map (fun x => (x.1, f x.2)), cdsCache := r.cdsCache.map f }
+
 inductive Op where
   | cds (g : Gene)
   | area (a : AreaT)
@@ -356,6 +368,7 @@ inductive Op where
   | withinRegions
   | hasCds (aid gid : Nat)
   | indexOf (aid gid : Nat)
+  | setCores (gid : Nat) (cs : List String)
 deriving Repr, Inhabited
 
 def step (r : Rec) : Op → E Rec
@@ -371,6 +384,7 @@ def step (r : Rec) : Op → E Rec
   | .withinRegions => pure (withinRegions r)
   | .hasCds aid gid => pure (hasCds r aid gid)
   | .indexOf aid gid => indexOf r aid gid
+  | .setCores gid cs => setCores r gid cs
 
 /-- a history of calls on a fresh record of the given length -/
 def run (len : Int) (ops : List Op) : E Rec := ops.foldlM step { len := len }
